@@ -79,6 +79,13 @@ type contractPayment struct {
 	transactOpts *bind.TransactOpts
 }
 
+// depositKey is the spelling of an account under which its deposit is cached:
+// the checksummed form that the contract's balance events are reported with,
+// whichever way the wallet chose to write its address.
+func depositKey(account store.Account) store.Account {
+	return store.Account(common.HexToAddress(string(account)).Hex())
+}
+
 // GetNodeBalance proxies the normal store implementation
 // by adding the contract deposit to the resulting balance.
 func (p *contractPayment) GetNodeBalance(nodeID store.NodeID) (store.Balance, error) {
@@ -93,7 +100,7 @@ func (p *contractPayment) GetNodeBalance(nodeID store.NodeID) (store.Balance, er
 	}
 
 	// FIXME: Cache this, since it's pretty slow. Use SubscribeBalance to update the cache.
-	deposit, err := p.balanceCache.Get(balance.Account)
+	deposit, err := p.balanceCache.Get(depositKey(balance.Account))
 	if err != nil {
 		return balance, err
 	}
@@ -114,7 +121,7 @@ func (p *contractPayment) GetAccountBalance(account store.Account) (store.Balanc
 	}
 
 	// FIXME: Cache this, since it's pretty slow. Use SubscribeBalance to update the cache.
-	deposit, err := p.balanceCache.Get(account)
+	deposit, err := p.balanceCache.Get(depositKey(account))
 	if err != nil {
 		return balance, err
 	}
